@@ -281,8 +281,8 @@ def rules_swallow(run):
 
 
 def check(run):
-    rules_purity(run)
-    rules_order(run)
+    run.guard(rules_purity, run)
+    run.guard(rules_order, run)
     info = rules_pairs(run)
-    rules_reflexive(run, info)
-    rules_swallow(run)
+    run.guard(rules_reflexive, run, info)
+    run.guard(rules_swallow, run)
